@@ -405,3 +405,9 @@ v('c04-split-update-skipped', ['C04'], MINF, "        if j != 0 {\n            /
 v('c04-delta-char', ['C04'], MINF, "main.refine_block_with_fun(b, |x| delta(x, s.char), s.block)", "main.refine_block_with_fun(b, |x| delta(x, s.class), s.block)", 'C04.R6/refine_block_with_splitter')
 v('c04-pred-class', ['C04'], MINF, "p.refine_block(s.class, |x| main.block_id(delta(x, c)) == i)", "p.refine_block(s.class, |x| main.block_id(delta(x, c)) == j)", 'C04.R3')
 v('c04-count', ['C04'], PARF, "            if p(s[k]) {\n                if j < k {\n                    s.swap(k, j);\n                }\n                j += 1;", "            if p(s[k]) {\n                if j < k {\n                    s.swap(k, j);\n                    j += 1;\n                }", 'C04.R5/BasePartition::refine_block')
+
+# ---- C11.R5
+v('c11-try-from-iter-lt', ['C11'], CS, "                if c.start <= prev.end {\n                    return Err(Error::NonDisjointCharSets);", "                if c.start < prev.end {\n                    return Err(Error::NonDisjointCharSets);", 'C11.R5')
+v('c11-try-from-iter-prev', ['C11'], CS, "                if c.start <= comp_witness {\n                    comp_witness = c.end + 1;\n                }\n                prev = c;", "                if c.start <= comp_witness {\n                    comp_witness = c.end + 1;\n                }", 'C11.R5')
+v('c11-try-from-iter-sortkey', ['C11'], CS, "v.sort_by_key(|c| c.start);", "v.sort_by_key(|c| c.end - c.start);", 'C11.R5')
+v('c11-try-from-iter-witness', ['C11'], CS, "                if c.start <= comp_witness {\n                    comp_witness = c.end + 1;\n                }\n                prev = c;", "                if c.start < comp_witness {\n                    comp_witness = c.end + 1;\n                }\n                prev = c;", 'C11.R5')
